@@ -103,7 +103,14 @@ func c06(args []string) error {
 			return &origin.Resp{Status: 200, Headers: map[string]string{"Content-Type": "video/mp2t"}, BodyGen: &origin.BodyGen{Kind: "binary", Size: 200, Seed: len(uri)}}
 		}
 		if strings.HasPrefix(uri, "/fail") {
-			return &origin.Resp{Status: 500, Body: "always failing"}
+			// always failing, with the statuses the crawler retries and the headers such answers carry
+			k := 0
+			fmt.Sscanf(uri, "/fail%d/", &k)
+			resp := &origin.Resp{Status: []int{500, 429, 503, 408, 425, 502}[k%6], Body: "always failing"}
+			if k%6 == 1 || k%6 == 2 {
+				resp.Headers = map[string]string{"Retry-After": []string{"1", "0", "Wed, 21 Oct 2037 07:28:00 GMT"}[(k/6)%3]}
+			}
+			return resp
 		}
 		if strings.HasPrefix(uri, "/flaky") {
 			if cnt <= mt {
